@@ -126,6 +126,12 @@ pub fn variants_kp() -> Vec<Variant> {
     } } } }
     v
 }
+/// the hand-written knapsacks (KPH): loose or absent rough bound (long searches), both merge operators, two rankings
+pub fn variants_kph() -> Vec<Variant> {
+    let mut v = vec![];
+    for bonus in [false, true] { for rub in [Rub::None, Rub::Slack] { for rank in [Rank::Asc, Rank::Desc] { v.push(Variant { rub, dom: Dom::Off, rank, revperm: false, flat: false, bonus, la: false }); } } }
+    v
+}
 pub fn variants_irr() -> Vec<Variant> {
     let mut v = vec![];
     for rub in [Rub::None, Rub::Exact] { for rank in [Rank::Asc, Rank::Desc] { v.push(Variant { rub, dom: Dom::Off, rank, revperm: false, flat: true, bonus: false, la: true }); } }
@@ -138,7 +144,7 @@ fn selfcheck() -> i32 {
     let mut bad = 0u64;
     for fam in all_families() {
         let cnt = fam.count().min(4000);
-        let vars = match fam { Fam::Sp { .. } => variants_sp(), Fam::Kp { .. } | Fam::Kpz { .. } | Fam::Kpb { .. } => variants_kp(), Fam::TmIrr { .. } => variants_irr(), _ => variants_ca() };
+        let vars = match fam { Fam::Sp { .. } => variants_sp(), Fam::Kp { .. } | Fam::Kpz { .. } | Fam::Kpb { .. } | Fam::Kph { .. } => variants_kp(), Fam::TmIrr { .. } => variants_irr(), _ => variants_ca() };
         for idx in 0..cnt {
             for var in vars.iter() {
                 let m = fam.build(idx, *var);
@@ -306,6 +312,11 @@ fn plans_c05h(thorough: bool, full: &[Cfg], c3: &[Cfg], heavy: bool) -> Vec<Plan
         p.push(plan("KP-5", variants_kp(), true, c3, m, Some(if thorough { 413_343 } else { 20_000 })));
         p.push(plan("KPB-6", variants_kp(), true, c3, m, None));
         p.push(plan("KPB-7", variants_kp(), true, c3, m, Some(if thorough { 114_688 } else { 20_000 })));
+        // hand-written knapsacks with 7 (10, 11) items and all their neighbours at distance 1: the same (state, depth) sits in the
+        // fringe several times with different bounds, and a cut-off index exists between two pops whose order matters
+        // (seeded changes C19 and C19r5: an entry of the duplicate-free fringe lowered in place without repairing the heap)
+        p.push(plan("KPH-0", variants_kph(), false, c3, m, None));
+        if thorough { p.push(plan("KPH-1", variants_kph(), false, c3, m, None)); p.push(plan("KPH-2", variants_kph(), true, c3, m, None)); }
     } else {
         p.push(plan("KPB-6", variants_kp(), true, c3, m, Some(6000)));
     }
